@@ -12,6 +12,7 @@ import (
 	"errors"
 	"fmt"
 	"io"
+	"strings"
 	"testing"
 
 	"github.com/gotid/god/internal/verifc01"
@@ -126,9 +127,26 @@ type c01SQLTarget struct {
 func (t *c01SQLTarget) Disable(string) { panic("c01 sqlx driver: disable is not part of the integration table") }
 
 func (t *c01SQLTarget) Do(name string, c verifc01.Call) (o verifc01.Obs) {
+	// api = operation[@flavour]; the flavour is how the connection was configured
+	op, flavour := c.Api, ""
+	if i := strings.IndexByte(c.Api, '@'); i >= 0 {
+		op, flavour = c.Api[:i], c.Api[i+1:]
+	}
 	conn := t.conns[name]
 	if conn == nil {
-		conn = NewConnFromDB(t.db) // a fresh connection wrapper owns a fresh breaker
+		// a fresh connection wrapper owns a fresh breaker
+		switch flavour {
+		case "":
+			conn = NewConnFromDB(t.db)
+		case "mysql": // what NewMySQL appends to every connection it makes
+			conn = NewConnFromDB(t.db, withMySQLAcceptable())
+		case "custom": // a user-supplied accept option that accepts nothing extra
+			conn = NewConnFromDB(t.db, func(cc *commonConn) {
+				cc.accept = func(error) bool { return false }
+			})
+		default:
+			panic("c01 sqlx driver: unknown connection flavour " + flavour)
+		}
 		if t.conns == nil {
 			t.conns = map[string]Conn{}
 		}
@@ -137,7 +155,7 @@ func (t *c01SQLTarget) Do(name string, c verifc01.Call) (o verifc01.Obs) {
 	want, empty := c01Outcome(c.Oc)
 	c01Script.err, c01Script.empty, c01Script.hits = want, empty, 0
 	var err error
-	switch c.Api {
+	switch op {
 	case "sql_exec":
 		_, err = conn.Exec("update t set v = 1")
 		o.Req = c01Script.hits
